@@ -1,12 +1,13 @@
 #!/bin/bash
-# usage: lib/trymut.sh <patch.diff> <Cxx> [tier]  - apply a patch to /repo, run the check, revert.
+# usage: lib/trymut.sh <patch.diff> <Cxx> [tier]
+# Applies a patch to a scratch worktree of /repo's HEAD (outside /repo and /verif), runs the check
+# against it (VERIF_REPO) and removes the worktree. /repo itself is never touched.
 set -u
-patch=$1; prop=$2; tier=${3:-quick}
-cd /repo || exit 2
-if ! git diff --quiet; then echo "repo dirty"; exit 2; fi
-git apply "$patch" || { echo "patch does not apply"; exit 2; }
-( go build ./... ) || { git checkout -- . ; echo "does not build"; exit 2; }
-cd /verif && ./check "$prop" "$tier" 2>&1 | grep -E "^(VIOLATION|KNOWN|SUMMARY|NONDET)|check: (worker|the workload)" | cut -c1-600
-rc=${PIPESTATUS[0]}
-cd /repo && git checkout -- . && git status --short
-exit $rc
+patch=$(readlink -f "$1"); prop=$2; tier=${3:-quick}
+wt=$(mktemp -d /tmp/verif-mut-XXXXXX)
+git -C /repo worktree add -q --detach "$wt" HEAD || exit 2
+cleanup() { git -C /repo worktree remove --force "$wt" 2>/dev/null; rm -rf "$wt"; git -C /repo worktree prune; }
+trap cleanup EXIT
+( cd "$wt" && git apply "$patch" && go build ./... ) || { echo "patch does not apply or build"; exit 2; }
+cd /verif && VERIF_REPO="$wt" VERIF_NO_EVIDENCE=1 ./check "$prop" "$tier" 2>&1 | grep -E "^(VIOLATION|KNOWN|SUMMARY|NONDET)|check: (worker|the workload)" | cut -c1-600
+exit ${PIPESTATUS[0]}
